@@ -1,0 +1,13 @@
+//go:build verif
+
+package hash
+
+// VerifYield, when set, is called by the hashing goroutines between their steps so that the
+// verification harness in /verif can perturb the schedule. Only compiled with -tags verif.
+var VerifYield func(where string)
+
+func verifYield(where string) {
+	if VerifYield != nil {
+		VerifYield(where)
+	}
+}
